@@ -21,6 +21,13 @@ func main() {
 		updateBaseline := fs.Bool("update-baseline", false, "rewrite baseline for this property")
 		fs.Parse(os.Args[3:])
 		os.Exit(runCheck(os.Args[2], *tier, *repo, *verif, *only, *updateBaseline))
+	case "replay":
+		// govc replay <property> <replay-file>: re-decide the recorded obligation on /repo's current tree
+		if len(os.Args) < 4 {
+			fmt.Fprintln(os.Stderr, "usage: govc replay <property> <replay.json>")
+			os.Exit(2)
+		}
+		os.Exit(runReplayFile(os.Args[2], os.Args[3]))
 	default:
 		fmt.Fprintln(os.Stderr, "unknown command")
 		os.Exit(2)
